@@ -20,6 +20,7 @@ func init() {
 	vRegister("vC23_roundtrip", vC23_roundtrip)
 	vRegister("vC23_roundtrip_md", vC23_roundtrip_md)
 	vRegister("vC23_metadata", vC23_metadata)
+	vRegister("vC23_metadata_limit", vC23_metadata_limit)
 	vRegister("vC23_deadline", vC23_deadline)
 	vRegister("vC23_concat", vC23_concat)
 	vRegister("vC23_server", vC23_server)
@@ -335,6 +336,45 @@ func vC23_metadata() {
 	if n == 3 && k1 != k2 && k2 != k3 && k1 != k3 {
 		vCover("three-keys")
 	}
+	vCover("end")
+}
+
+// the wire limit of the metadata codec: keys and values "shorter than 65536 bytes" travel behind a 2-byte length, so a key
+// or a value of 65534 or of exactly 65535 bytes (the largest a uint16 describes) must survive like any other. One header
+// sits at the limit (key or value, by job; all of its bytes symbolic), a second ordinary header follows it.
+func vC23_metadata_limit() {
+	n := vCase("fieldLen")
+	big := vNondetStringN("big", n)
+	small := vNondetStringN("small", 1)
+	k2, v2 := vNondetStringN("k2", 2), vNondetStringN("v2", 1) // a key of another length: the two headers are distinct
+	bigIsKey := vCase("bigIsKey") == 1
+	k1, v1 := small, big
+	if bigIsKey {
+		k1, v1 = big, small
+	}
+	md := NewMetadata()
+	md.Set(k1, v1)
+	md.Set(k2, v2)
+	nHeaders := 2
+	b := md.MarshalBinary()
+	if nHeaders == 2 {
+		vAssert(len(b) == 10+4+len(k1)+len(v1)+4+len(k2)+len(v2), "encoded metadata has the documented size")
+	}
+	got := &Metadata{}
+	err := got.UnmarshalBinary(b)
+	vAssert(err == nil, "metadata with a header at the wire limit decodes")
+	if err != nil {
+		return
+	}
+	vAssert(len(got.headers) == nHeaders, "as many headers decoded as encoded, also with a key or value at the wire limit")
+	g2, ok2 := got.Get(k2)
+	vAssert(ok2 && g2 == v2, "the ordinary header after the long one is decoded with its value")
+	if nHeaders == 2 {
+		g1, ok1 := got.Get(k1)
+		vAssert(ok1 && len(g1) == len(v1) && g1 == v1, "the header whose key or value is at the wire limit is decoded with its value")
+	}
+	_, has := got.GetDeadline()
+	vAssert(!has, "no deadline stays no deadline")
 	vCover("end")
 }
 
